@@ -21,6 +21,7 @@ if __name__ == "__main__":
     ap.add_argument("--profile", default=None, help="property id whose profile to use (default: first prop)")
     ap.add_argument("--override", default=None, help="JSON dict merged into the profile")
     ap.add_argument("--show", type=int, default=3)
+    ap.add_argument("--raw", action="store_true")
     ap.add_argument("--nproc", type=int, default=16)
     ap.add_argument("--timeout", type=float, default=40)
     a = ap.parse_args()
@@ -32,7 +33,9 @@ if __name__ == "__main__":
         for s in specs:
             s["profile"] = dict(s.get("profile") or {}, **ov)
     t0 = time.time()
-    res = runner.run_batch(specs, props, nproc=a.nproc, timeout=a.timeout)
+    from dst.oracles import registry
+    allprops = list(registry.ORACLES)
+    res = runner.run_batch(specs, allprops, nproc=a.nproc, timeout=a.timeout)
     wall = time.time() - t0
     tally = Counter()
     ex = defaultdict(list)
@@ -59,7 +62,16 @@ if __name__ == "__main__":
         if r.get("exc"):
             excs[(r["kind"], r["exc"]["type"], r["exc"]["where"], r["exc"]["msg"][:50])] += 1
         seen = set()
-        for v in r.get("viol", []):
+        from dst import findings
+        entries = findings.load()
+        vs = r.get("viol", [])
+        if not a.raw:
+            vs, hits, _ = findings.triage(entries, vs)
+            for e_, _v in hits:
+                tally[("KNOWN", e_["id"], "")] += 1
+        for v in vs:
+            if v["prop"] not in props:
+                continue
             key = (v["prop"], v["rule"], json.dumps({k: x for k, x in v["keys"].items() if k not in ("rule",)}, sort_keys=True))
             if key in seen:
                 continue
